@@ -41,15 +41,15 @@ def verify(src: str, name: str) -> int:
                 print(f"{name}: patch does not apply on HEAD: {chk.stderr.strip()[:200]}")
                 return 1
             sh(["git", "-C", str(wt), "reset", "-q"])
-            new_patch = sh(["git", "-C", str(wt), "diff"]).stdout
+            new_patch = subprocess.run(["git", "-C", str(wt), "diff"], capture_output=True).stdout
             sh(["git", "-C", str(wt), "checkout", "--", "."])
             result["rebased"] = True
         else:
-            new_patch = patch.read_text()
+            new_patch = patch.read_bytes()
         clean = sh([PY, str(src_dir / "demo.py")], cwd=str(wt), env=env, timeout=600)
         result["demo_clean_exit"] = clean.returncode
         tmp_patch = wt / ".seed.patch"
-        tmp_patch.write_text(new_patch)
+        tmp_patch.write_bytes(new_patch)
         ap = sh(["git", "-C", str(wt), "apply", str(tmp_patch)])
         if ap.returncode != 0:
             print(f"{name}: apply failed: {ap.stderr[:200]}")
@@ -65,7 +65,7 @@ def verify(src: str, name: str) -> int:
         if ok:
             dst = VERIF / "seeded" / name
             dst.mkdir(parents=True, exist_ok=True)
-            (dst / "patch.diff").write_text(new_patch)
+            (dst / "patch.diff").write_bytes(new_patch)
             shutil.copy(src_dir / "demo.py", dst / "demo.py")
             if (src_dir / "notes.md").exists():
                 shutil.copy(src_dir / "notes.md", dst / "notes.md")
